@@ -1460,16 +1460,17 @@ func (b *CFGBuilder) convertElifClauseToIf(elifNode *parser.Node) *parser.Node {
 		Orelse: elifNode.Orelse,
 	}
 
-	// Validation: panic if expected fields are missing (indicates parser bug)
-	// This is a programming error, not a user input error, so fail-fast is appropriate
+	// An elif clause without a body or test reaches this point for truncated
+	// input that tree-sitter still accepts (e.g. a file ending in "elif y:").
+	// Report it and keep going: the clause then simply has no statements.
 	if len(ifNode.Body) == 0 || ifNode.Test == nil {
-		panic(fmt.Sprintf(
-			"Invalid elif_clause node at %s:%d - parser bug detected (Test exists: %v, Body length: %d)",
+		b.logError(
+			"incomplete elif_clause node at %s:%d (Test exists: %v, Body length: %d)",
 			elifNode.Location.File,
 			elifNode.Location.StartLine,
 			ifNode.Test != nil,
 			len(ifNode.Body),
-		))
+		)
 	}
 
 	return ifNode
